@@ -95,6 +95,14 @@ def validate(ctx, pairs, embs, label, mine, nproc=12, dual=False):
     jobs = [dict(fn="wasserstein", S=to_float_dgm(S, e), T=to_float_dgm(T, e), matching=True,
                  container=("list" if i % 5 == 0 and all(p[2] for p in S + T) and S and T else "array"))
             for i, ((S, T), e) in enumerate(zip(pairs, embs))]
+    # integer-valued finite diagrams also arrive in integer dtypes (unsigned and narrow ones included), the smallest that holds them by turns
+    for i, j in enumerate(jobs):
+        vals = [v for d in (j["S"], j["T"]) for p in d for v in p]
+        if i % 3 == 1 and j["S"] and j["T"] and all(v == v and abs(v) != float("inf") and float(v).is_integer() for v in vals):
+            for kind, lo, hi in [("uint8", 0, 255), ("int8", -128, 127), ("uint16", 0, 65535), ("int16", -32768, 32767), ("int32", -2 ** 31, 2 ** 31 - 1), ("int64", -2 ** 62, 2 ** 62)][(i // 3) % 2::2]:
+                if all(lo <= v <= hi for v in vals):
+                    j["container"] = kind
+                    break
     results, seeds = run_driver_parallel("distances.py", jobs, nproc=nproc)
     cases, idx = [], []
     for i, ((S, T), e, r) in enumerate(zip(pairs, embs, results)):
